@@ -35,6 +35,24 @@ func genC02(t *rapid.T) *c02Case {
 	if rapid.IntRange(0, 2).Draw(t, "withMeta") == 0 {
 		c.Opts.DrawMeta(t, 60)
 	}
+	// rare: large noisy pictures at high quality, so that token partitions exceed 64 KiB (the
+	// 3-byte partition size fields and large chunk sizes are otherwise never exercised)
+	bigEvery := 160
+	if tierThorough() {
+		bigEvery = 400
+	}
+	if rapid.IntRange(0, bigEvery-1).Draw(t, "hugePartitions") == 37 {
+		w := rapid.IntRange(400, 720).Draw(t, "hugeW")
+		h := rapid.IntRange(400, 720).Draw(t, "hugeH")
+		c.Img = &gen.Img{W: w, H: h, Kind: "nrgba", Place: "tight", Content: "noise", Alpha: "opaque", Colors: 300}
+		c.Img.Pix = gen.RenderContent(w, h, "noise", "opaque", rapid.Uint64().Draw(t, "hugeSeed"))
+		c.Opts = gen.FromDefault()
+		c.Opts.NoMeta()
+		c.Opts.SetQuality(float32(rapid.IntRange(90, 100).Draw(t, "hugeQ")))
+		c.Opts.Method = rapid.IntRange(0, 3).Draw(t, "hugeMethod")
+		c.Opts.Partitions = rapid.IntRange(1, 3).Draw(t, "hugeParts")
+		c.Opts.Segments = rapid.IntRange(1, 4).Draw(t, "hugeSeg")
+	}
 	return c
 }
 
@@ -136,6 +154,13 @@ func checkC02(c *c02Case, o *core.Obs) error {
 	o.Labelf("vp8x=%v", rf.HasVP8X)
 	o.Label("size=" + c.Img.SizeClass())
 	if fr.VP8 != nil {
+		big := false
+		for _, ps := range fr.VP8.PartSizes {
+			if ps >= 65536 {
+				big = true
+			}
+		}
+		o.Labelf("partition>=64KiB=%v", big)
 		o.Labelf("partitions=%d", fr.VP8.NumPartitions)
 		o.Labelf("segments_on=%v", fr.VP8.SegEnabled)
 		o.Labelf("filter_simple=%v/level0=%v", fr.VP8.FilterSimple, fr.VP8.FilterLevel == 0)
